@@ -317,3 +317,34 @@ def method_writes(P, cls, name, attr, _seen=None):
             if method_writes(P, cls, n.func.attr, attr, _seen):
                 return True
     return False
+
+
+READ_ONLY_CALLEES = {'len', 'any', 'all', 'sum', 'list', 'tuple', 'sorted', 'min', 'max', 'enumerate', 'iter', 'next', 'bool', 'reversed', 'zip', 'filter', 'map', 'set', 'frozenset'}
+
+
+def flows_to_read_only_local(mod, func, node):
+    """the expression `node` is (an operand of a conditional expression / list concatenation that is) assigned to a local of `func`, and that local
+    is only ever read: iterated, measured, tested, indexed or handed to a pure builtin -- a query over the data, nothing that could change it
+    or let it escape"""
+    par = mod.parents
+    cur = node
+    p = par.get(cur)
+    while isinstance(p, (ast.IfExp, ast.BinOp)) and not (isinstance(p, ast.IfExp) and p.test is cur):
+        cur, p = p, par.get(p)
+    if not (isinstance(p, ast.Assign) and p.value is cur and len(p.targets) == 1 and isinstance(p.targets[0], ast.Name)) or func is None:
+        return False
+    nm = p.targets[0].id
+    if sum(1 for x in ast.walk(func) if isinstance(x, ast.Name) and x.id == nm and isinstance(x.ctx, ast.Store)) != 1:
+        return False
+    for u in ast.walk(func):
+        if not (isinstance(u, ast.Name) and u.id == nm and isinstance(u.ctx, ast.Load)):
+            continue
+        q = par.get(u)
+        ok = (isinstance(q, (ast.For, ast.comprehension)) and q.iter is u) or \
+             (isinstance(q, ast.Call) and isinstance(q.func, ast.Name) and q.func.id in READ_ONLY_CALLEES and u in q.args) or \
+             (isinstance(q, ast.Compare) and u in q.comparators and all(isinstance(o_, (ast.In, ast.NotIn)) for o_ in q.ops)) or \
+             (isinstance(q, ast.Subscript) and q.value is u and isinstance(q.ctx, ast.Load)) or \
+             (isinstance(q, (ast.If, ast.While, ast.IfExp)) and q.test is u) or isinstance(q, ast.BoolOp) or (isinstance(q, ast.UnaryOp) and isinstance(q.op, ast.Not))
+        if not ok:
+            return False
+    return True
